@@ -99,6 +99,9 @@ DEP_AX = [   # G1 (Lean: PjGraph.G1) in skolemised form; TCp(E, a, x): a is a tr
     ForAll([E_, s_, V_], Implies(And(AcycP(E_), Not(AcycP(Store(E_, s_, V_)))),
                                  And(V_[wit(E_, s_, V_)], Or(wit(E_, s_, V_) == s_, TCp(E_, s_, wit(E_, s_, V_))))), patterns=[AcycP(Store(E_, s_, V_))]),
     ForAll([E_, a, x], Implies(And(x != null, E_[x][a]), TCp(E_, a, x)), patterns=[E_[x][a]]),
+    ForAll([E_, a, b, c], Implies(And(TCp(E_, a, b), TCp(E_, b, c)), TCp(E_, a, c)), patterns=[MultiPattern(TCp(E_, a, b), TCp(E_, b, c))]),       # transitivity (TransGen.trans)
+    ForAll([E_, x], Implies(AcycP(E_), Not(TCp(E_, x, x))), patterns=[TCp(E_, x, x)]),                                                           # definition of Acyclic
+    ForAll([E_, a, x], Implies(And(AcycP(E_), x != null, E_[x][a]), Not(TCp(E_, x, a))), patterns=[TCp(E_, x, a)]),                                # corollary of the three above (a direct link excludes the reverse path)
 ]
 
 TASK_CLASSES = {'Task': {'_Task__parent': T, '_Task__children': LR, '_Task__wbs': W, '_Task__id': INT, '_Task__predecessors': LR, '_Task__successors': LR},
